@@ -87,7 +87,7 @@ ASSUMPTIONS = [
     "checked, not which cell is wrapped where",
 ]
 
-QUICK_BUDGET_S = 120
+QUICK_BUDGET_S = 300
 THOROUGH_BUDGET_S = 3000
 RTOL = 1e-9          # length tolerance relative to R + |pos|
 RATIO_RTOL = 1e-12   # linearity in the ratio, distance matrices, min dist
